@@ -13,4 +13,6 @@ def regenerate(lean_dir):
         info["effects"] = None
     from . import cropfull
     info["cropfull"] = cropfull.regenerate(lean_dir, repo=os.environ.get("AQV_REPO", "/repo"))
+    from . import rundefaults
+    info["rundefaults"] = rundefaults.regenerate(lean_dir, repo=os.environ.get("AQV_REPO", "/repo"))
     return info
